@@ -207,7 +207,10 @@ pub fn conc_campaigns(property: &str) -> Vec<ConcCampaign> {
         ],
         "C16" => vec![ConcCampaign { name: "conc-counters", profile: General, cases_quick: 500, cases_thorough: 6000, nt: |s| s.threads >= 2 && s.evicted_or_rejected,
             rule: "generated concurrent programs; at quiescence hits + misses == lookups issued, KeysAdded - KeysDeleted == keys held, WeightAdded - WeightRemoved == weight used; non-trivial = >= 2 threads and at least one put refused for space" }],
-        "C17" => vec![ConcCampaign { name: "conc-no-panic", profile: Deadlock, cases_quick: 400, cases_thorough: 6000, nt: |s| s.threads >= 3 && s.delays > 0,
+        "C17" => vec![
+            ConcCampaign { name: "sched-controlled", profile: Sched, cases_quick: 1500, cases_thorough: 15_000, nt: |s| s.sched_steps >= 15 && s.sched_threads >= 3,
+            rule: "tiny programs (2-3 client threads x 2-7 operations on 1-2 keys, TTLs, clock moves as program steps) under the controlled scheduler (see C18): no call may panic, no background thread may die or stop making progress (the cache must keep completing writes); non-trivial = >= 15 scheduling decisions over >= 3 threads" },
+            ConcCampaign { name: "conc-no-panic", profile: Deadlock, cases_quick: 400, cases_thorough: 6000, nt: |s| s.threads >= 3 && s.delays > 0,
             rule: "generated concurrent programs with maximal sharing; no call may panic, no background thread may die (panic hook on every thread), worker / consumer / sweeper must pass a liveness probe at the end; non-trivial = >= 3 threads with injected delays" }],
         "C11" => vec![
             ConcCampaign { name: "sched-controlled", profile: Sched, cases_quick: 1500, cases_thorough: 15_000, nt: |s| s.sched_steps >= 15 && s.sched_threads >= 3,
